@@ -930,7 +930,7 @@ def run_scenario(scn: list, mode: str, x: dict | None = None) -> dict:
     W = World()
     journals: dict[int, object] = {}
     obs = {"results": [], "snaps": [], "restore_bad": [], "cur_bad": [], "oracle_entries": [], "escaped": None,
-           "ops": []}
+           "ops": [], "errsites": {}, "pos_seq": []}
     tracer = None
     if mode == "traced":
         tracer = Tracer(x)
@@ -950,7 +950,14 @@ def run_scenario(scn: list, mode: str, x: dict | None = None) -> dict:
         except Exception as e:  # noqa: BLE001
             res = ("raise", type(e).__name__)
             err = (type(e), common.exn_name(e))
+            if mode == "journal":
+                import traceback
+                fr = [(os.path.basename(f.filename), f.name) for f in traceback.extract_tb(e.__traceback__)]
+                obs["errsites"][pos_of[id(it)]] = {
+                    "deepest_frame": list(fr[-1]),
+                    "via_wrapper_details": any(a == "_wrappers.py" and b == "<lambda>" for a, b in fr)}
         W.refresh()
+        obs["pos_seq"].append(pos_of[id(it)])
         obs["results"].append(res)
         obs["snaps"].append(common.digest(W.snapshot()))
         if tracer:
@@ -1066,9 +1073,38 @@ def oracle(scn: list) -> list[str]:
     """The property, directly: journaled vs unjournaled run (results, exceptions, IR snapshots), classes
     and current journal restored at every exit, one entry per completed instrumented operation, no strong
     references.  Public API only."""
+    return oracle_full(scn)[0]
+
+
+def oracle_full(scn: list):
     a = run_scenario(scn, "plain")
     c = run_scenario(scn, "journal")
-    return confirm(scn, compare_plain_journal(a, c))
+    bad = confirm(scn, compare_plain_journal(a, c))
+    return bad, (divergence_site(scn, a, c) if any(b.startswith("interference") for b in bad) else None)
+
+
+def divergence_site(scn: list, a: dict, c: dict) -> dict | None:
+    """Where the journaled run first departs from the plain run: the operation, both outcomes, and (for an
+    exception raised only under the journal) the frame that raised it."""
+    for i, (p, q) in enumerate(zip(a["results"], c["results"])):
+        if p != q or a["snaps"][i] != c["snaps"][i]:
+            pos = c["pos_seq"][i]
+            it = list(_flat_ops(scn))[pos]
+            site = {"op": it["op"], "args": sorted(k for k in it if k not in ("op", "prop")),
+                    "plain": list(p), "journaled": list(q)}
+            site.update(c["errsites"].get(pos, {}))
+            return site
+    return None
+
+
+def site_matches(known_site: dict, site: dict | None) -> bool:
+    if site is None:
+        return False
+    return (site["op"] == known_site.get("op")
+            and all(k in site["args"] for k in known_site.get("requires_args", []))
+            and site["journaled"] == known_site.get("journaled")
+            and site.get("deepest_frame") == known_site.get("deepest_frame")
+            and site.get("via_wrapper_details") == known_site.get("via_wrapper_details"))
 
 
 def _behaviour(o: dict) -> str:
@@ -1452,9 +1488,13 @@ def shrink(scn: list, fails, budget: int = 400) -> list:
     return cur
 
 
-def _known_key(ck, bad: list[str]) -> str | None:
+def _known_key(ck, bad: list[str], site: dict | None) -> str | None:
+    """A failing scenario is a known finding only if ALL its failures are the consequences of a first
+    divergence at a known site (anything about restoration, entries, references is never excused)."""
+    if not bad or not all(b.startswith("interference") for b in bad):
+        return None
     for k in ck._known:
-        if k.get("status") == "known" and all(k.get("site", {}).get("message_contains", "\0") in b for b in bad):
+        if k.get("status") == "known" and site_matches(k.get("site", {}), site):
             return k["key"]
     return None
 
@@ -1463,21 +1503,32 @@ def replay_known(ck) -> None:
     for k in ck._known:
         if k.get("status") != "known":
             continue
-        if oracle(k["witness"]):
+        bad, site = oracle_full(k["witness"])
+        if bad and site_matches(k.get("site", {}), site):
             ck.known_finding(k["key"], k["what"])
         else:
-            ck.broken(f"known-finding-stale:{k['key']}", "the recorded witness no longer fails on the implementation")
+            ck.broken(f"known-finding-stale:{k['key']}",
+                      "the recorded witness no longer fails (at that site) on the implementation")
 
 
-def report(ck, scn, bad, kind="oracle") -> None:
-    key = _known_key(ck, bad)
+def report(ck, scn, bad, site, kind="oracle") -> bool:
+    key = _known_key(ck, bad, site)
     if key:
         ck.known_finding(key, next(k["what"] for k in ck._known if k["key"] == key))
-        return
+        return False
     sig = bad[0].split(":")[0]
-    small = shrink(scn, lambda s: any(b.split(":")[0] == sig for b in oracle(s)))
-    ck.violation({"kind": kind, "scenario": small, "failures": oracle(small), "broken": ck.broken_items,
+
+    def same(s):
+        b, st = oracle_full(s)
+        return any(x.split(":")[0] == sig for x in b) and not _known_key(ck, b, st)
+    small = shrink(scn, same)
+    b2, st2 = oracle_full(small)
+    if not b2:
+        ck.notes.append("an oracle failure did not reproduce on re-execution (nondeterministic IR operation): " + bad[0][:200])
+        return False
+    ck.violation({"kind": kind, "scenario": small, "failures": b2, "first_divergence": st2, "broken": ck.broken_items,
                   "how_to_read": "scenario items: op / with <journal id> / try / throw; run plain and inside journals"})
+    return True
 
 
 def search(ck) -> None:
@@ -1485,10 +1536,10 @@ def search(ck) -> None:
     for i in range(budget):
         scn = gen_scenario(ck.rng, ck.rng.choice([8, 16, 30]))
         ck.count()
-        bad = oracle(scn)
-        if bad and not _known_key(ck, bad):
-            report(ck, scn, bad, "oracle-after-broken-obligation")
-            return
+        bad, site = oracle_full(scn)
+        if bad and not _known_key(ck, bad, site):
+            if report(ck, scn, bad, site, "oracle-after-broken-obligation"):
+                return
 
 
 def run(ck) -> None:
@@ -1548,7 +1599,9 @@ def run(ck) -> None:
         for r in d["restore_bad"]:
             bad.append(f"not restored after journal {r['journal']} ({r['exit']} exit, tracer installed): {r['attributes']}")
         if bad:
-            failures.append((scn, bad))
+            site = divergence_site(scn, a, c) if any(b.startswith("interference") for b in bad) else None
+            failures.append((scn, bad, site))
+            ck.hist("scenario_exit", "oracle-failure:" + (_known_key(ck, bad, site) or "NEW"))
         cases.append((scn, d))
         st = scn_stats(scn)
         ck.hist("nesting_depth", str(st["depth"]))
@@ -1583,18 +1636,19 @@ def run(ck) -> None:
         ck.broken("correspondence:run",
                   json.dumps({"scenario": small, "why": "Model.run disagrees with the implementation on journal "
                               "entries / restoration / escaping exception"}, default=str))
-        if not any(s is scn for s, _ in failures):
-            b = oracle(scn)
+        if not any(f[0] is scn for f in failures):
+            b, st = oracle_full(scn)
             if b:
-                failures.append((scn, b))
+                failures.append((scn, b, st))
     replay_known(ck)
     seen = set()
-    for scn, bad in failures:
-        sig = bad[0].split(":")[0]
+    for scn, bad, site in failures:
+        key = _known_key(ck, bad, site)
+        sig = key or bad[0].split(":")[0]
         if sig in seen:
             continue
-        seen.add(sig)
-        report(ck, scn, bad)
+        if report(ck, scn, bad, site) or key:
+            seen.add(sig)
     if ck.broken_items and not ck.violations:
         search(ck)
 
@@ -1620,6 +1674,6 @@ def replay(rp: dict) -> int:
         print("replay names a broken obligation/correspondence, no concrete input:",
               json.dumps(rp.get("broken"), indent=1)[:3000])
         return 1
-    bad = oracle(scn)
-    print(json.dumps({"scenario": scn, "failures": bad}, indent=1))
+    bad, site = oracle_full(scn)
+    print(json.dumps({"scenario": scn, "failures": bad, "first_divergence": site}, indent=1))
     return 1 if bad else 0
